@@ -41,6 +41,11 @@ func oracleC05(period int, ops []muxOp, calls []muxCall) string {
 		if o.kind == opAdd && c.code == -1 && o.es.ElementaryPID != 0 && reservedPID(o.es.ElementaryPID) {
 			tainted[o.es.ElementaryPID&0x1fff] = true
 		}
+		if o.kind == opAdd && c.code == -1 && o.es.ElementaryPID == 0 && len(c.st.PMTPIDs) > 0 {
+			if pid := c.st.PMTPIDs[len(c.st.PMTPIDs)-1]; reservedPID(pid) {
+				return at + fmt.Sprintf("PID %#x assigned automatically is the PID of a table: two continuity counters would share it", pid)
+			}
+		}
 		if o.kind == opData && !muxDataInDomain(o.d) {
 			// outside the domain (S1: writer-internal adaptation field members set by the caller, nil PES or header,
 			// unsupported header): a rejected first packet may have consumed a counter value; the PID is not judged further
